@@ -346,3 +346,15 @@ package fstree
 //@   property C15
 //@   loop 1 iteration [every_object_with_data_joins_the_list_handed_to_the_writer] len(data) != 0 ==> len(writeDataUnits) == old(len(writeDataUnits)) + 1
 //@   ensures [success_only_if_the_writer_stored_the_batch] err == nil ==> batchWritten()
+
+// ---- C10 / C11 (compressed files read as a stream): the decoder that preprocessStreamHead
+// returns goes on reading its input after the call - first the bytes already read from the file
+// (initial), then the file. The callers reuse the array behind `initial` at once (readObject
+// copies the decoded header into it), so what the decoder is given must be a copy of those bytes,
+// not a window of the caller's buffer: ownership of the input passes to the reader that outlives
+// the call. (Three independent seeded changes - C10b, C11d, C11h - dropped exactly this copy;
+// the rule was written knowing them.)
+//@ callrule c11_decoder_input_is_a_copy in (*FSTree).preprocessStreamHead
+//@   property C11 C10
+//@   callee bytes.NewReader
+//@   requires [decoder_reads_a_copy_not_the_callers_buffer] resultOf(a0, "slices.Clone")
